@@ -133,7 +133,10 @@ func genFan(t *rapid.T) *gkit.Spec {
 			x := "x" + key
 			sp.Nodes = append(sp.Nodes, lambda(x))
 			toEnd.NoControl = true
-			sp.Edges = append(sp.Edges, toEnd, gkit.Edge{From: "start", To: x, NoControl: true}, gkit.Edge{From: x, To: "end", ToKey: x})
+			sp.Edges = append(sp.Edges, toEnd, gkit.Edge{From: x, To: "end", ToKey: x})
+			if rapid.Bool().Draw(t, "targetHasData") {
+				sp.Edges = append(sp.Edges, gkit.Edge{From: "start", To: x, NoControl: true})
+			} // else: the branch target has no data input at all (runs on the zero value)
 			b := gkit.Branch{From: key, Targets: []string{"end", x}, Stream: true, Prefix: true, Multi: rapid.Bool().Draw(t, "multi")}
 			if b.Multi && rapid.Bool().Draw(t, "both") {
 				b.Force = []string{"end", x}
